@@ -6,5 +6,6 @@ CONSTANTS
   Progs <- MCProgs
   CtlLens = {0, 125}
   ReasonLens = {0, 123}
+CONSTRAINT Emit
 INVARIANTS InvCompleteIsWhole InvOrder InvFailStop InvNothingPastViolation InvDecode
 CHECK_DEADLOCK FALSE
